@@ -13,7 +13,7 @@ from . import front
 from .vals import *
 
 SOLVER_TIMEOUT_MS = int(os.environ.get("VERIF_SOLVER_TIMEOUT_MS", "20000"))
-FEAS_TIMEOUT_MS = int(os.environ.get("VERIF_FEAS_TIMEOUT_MS", "2000"))
+FEAS_TIMEOUT_MS = int(os.environ.get("VERIF_FEAS_TIMEOUT_MS", "300"))
 
 
 class Unsupported(Exception):
@@ -202,6 +202,7 @@ class Interp:
         self.target = None       # (relpath, qual) being verified: its body is executed, not its contract
         self.pow_sites = []
         self.write_logs = []
+        self.consumed_nalts = []
         self.first_new_oid = 0
         self.no_fork = 0
         self.log = []
@@ -291,6 +292,7 @@ class Interp:
         if self.di < len(self.dec):
             d = self.dec[self.di]
             self.di += 1
+            self.consumed_nalts.append(nalts)
             return d
         ok = [i for i in range(nalts) if feas(i)]
         if not ok:
@@ -669,6 +671,9 @@ class Interp:
                     self.frames.pop()
             if "_items" in f and attr in ("items", "keys", "values", "get", "copy"):
                 return BoundMethod(f["_items"], attr)
+            v = self.unmodelled_attr(o, attr)
+            if v is not None:
+                return v
             raise Unsupported("attribute %s.%s" % (o.cls, attr))
         if isinstance(o, RowRef):
             cols = self.heap[o.m.oid]["cols"]
@@ -682,6 +687,40 @@ class Interp:
                 return BoundMethod(o, attr)
             raise Unsupported("attribute %s.%s" % (o.cls, attr))
         return models.getattr_value(self, o, attr)
+
+    def unmodelled_attr(self, o, attr):
+        """an instance attribute that the class's __init__ assigns but the contract's state model does not
+        contain: state outside the abstraction.  It is given an arbitrary value of the assigned shape."""
+        r = resolve_method(o.cls, "__init__")
+        if r is None:
+            return None
+        for n in ast.walk(r[2]):
+            tgt = val = None
+            if isinstance(n, ast.Assign) and len(n.targets) == 1:
+                tgt, val = n.targets[0], n.value
+            elif isinstance(n, ast.AnnAssign):
+                tgt, val = n.target, n.value
+            if isinstance(tgt, ast.Attribute) and isinstance(tgt.value, ast.Name) and tgt.value.id == "self" \
+                    and tgt.attr == attr and val is not None:
+                v = self.arbitrary_like(val, "%s.%s" % (o.cls, attr))
+                self.heap[o.oid][attr] = v
+                self.log.append("unmodelled attribute %s.%s treated as arbitrary state" % (o.cls, attr))
+                return v
+        return None
+
+    def arbitrary_like(self, node, tag):
+        if isinstance(node, ast.Tuple):
+            return tuple(self.arbitrary_like(e, tag) for e in node.elts)
+        if isinstance(node, ast.Constant):
+            if isinstance(node.value, bool):
+                return self.bool("arb_" + tag)
+            if isinstance(node.value, float):
+                return self.fl("arb_" + tag, may_nan=True)
+            if isinstance(node.value, int):
+                return In(self.int("arb_" + tag))
+        if isinstance(node, ast.UnaryOp) and isinstance(node.operand, ast.Constant):
+            return self.arbitrary_like(node.operand, tag)
+        return Arb(tag)
 
     def e_Subscript(self, e):
         o = self.ev(e.value)
@@ -803,6 +842,16 @@ class Interp:
 
     def compare(self, op, a, b):
         from . import models
+        if isinstance(a, Arb) or isinstance(b, Arb):
+            if isinstance(op, (ast.Eq, ast.NotEq, ast.Is, ast.IsNot, ast.Lt, ast.LtE, ast.Gt, ast.GtE)):
+                return self.bool("arb_cmp")
+        if isinstance(a, tuple) and isinstance(b, tuple) and isinstance(op, (ast.Eq, ast.NotEq)):
+            if len(a) != len(b):
+                return isinstance(op, ast.NotEq)
+            r = True
+            for x, y in zip(a, b):
+                r = _and(r, self.compare(ast.Eq(), x, y))
+            return r if isinstance(op, ast.Eq) else _not(r)
         if isinstance(op, (ast.Is, ast.IsNot)):
             r = models.identical(a, b)
             return r if isinstance(op, ast.Is) else _not(r)
@@ -917,6 +966,8 @@ class Interp:
             return len(v) > 0
         if isinstance(v, (KeyV, Opaque, RowRef)):
             return True
+        if isinstance(v, Arb):
+            return self.bool("arb_truth")
         raise Unsupported("truth value of %r" % (v,))
 
 
@@ -969,10 +1020,11 @@ def _cmp(op, a, b):
 
 
 # ------------------------------------------------------------------------------ path exploration
-def explore(run, registry, opts=None, max_paths=4000):
-    """run(I) -> outcome. Enumerates all feasible paths. Returns list of (I, outcome)."""
+def explore(run, registry, opts=None, max_paths=4000, initial=None):
+    """run(I) -> outcome. Enumerates all feasible paths. Returns list of (I, outcome).
+    initial: a decision prefix (a shard of the top-level case split); only paths extending it are explored."""
     results = []
-    stack = [[]]
+    stack = [list(initial or [])]
     while stack:
         prefix = stack.pop()
         I = Interp(prefix, registry, opts)
@@ -981,6 +1033,11 @@ def explore(run, registry, opts=None, max_paths=4000):
         except PathEnd as p:
             out = ("end", p.reason)
         npre = len(prefix)
+        if initial:
+            # a shard prefix enumerates binary decisions only: anything else would silently drop alternatives
+            for n in I.consumed_nalts[:len(initial)]:
+                if n != 2:
+                    raise Unsupported("shard prefix does not match the decision structure of the function")
         for j in range(npre, len(I.dec)):
             if I.forkable[j]:
                 for alt in I.nalts[j]:
